@@ -349,6 +349,10 @@ def opaque_tree_map(I, f, t, others, is_leaf):
     'leafwise select' and 'projection', for which treewise = leafwise (A5); otherwise an uninterpreted function of
     (f, trees)."""
     k = len(others) + 1
+    if any(isinstance(o, Stacked) for o in others) and not isinstance(t, Stacked):
+        r = _batched_tree_map(I, f, [t] + list(others))
+        if r is not None:
+            return r
     leaves = [UVal(I.ctx.const("leaf", U), "leaf") for _ in range(k)]
     try:
         saved = (len(I.ctx.pc),)
@@ -384,6 +388,49 @@ def opaque_tree_map(I, f, t, others, is_leaf):
         # general leafwise expression: substitute trees for leaves inside an uninterpreted lifting
     fn = I.ctx.fn(f"tree_map{k}", *([U] * (k + 1)), U)
     return UVal(fn(I.to_u(f), *[x.t for x in trees]), t.cls if t.cls not in ("leaf",) else None)
+
+
+def _batched_tree_map(I, f, trees):
+    """tree_map(f, opaque tree, batch of trees, ...) whose leafwise result is a batch (e.g. a leafwise jnp.where against
+    jnp.arange(n) == idx): f is applied to probe leaves - a fresh leaf per opaque tree, a fresh BATCHED leaf per batch -
+    and the elementwise expression it returns denotes the treewise result with trees substituted for leaves (A5)."""
+    cnt = I.__dict__.setdefault("_probe_cnt", [0])
+    cnt[0] += 1
+    probes, consts, fns = [], [], []
+    for j, tr_ in enumerate(trees):
+        if isinstance(tr_, Stacked):
+            fn = I.ctx.fn(f"probe_leaf!{cnt[0]}!{j}", z3.IntSort(), U)
+            fns.append((fn, tr_))
+            probes.append(Stacked(tr_.n, lambda i, fn=fn: UVal(fn(i), "leaf"), tag="probe"))
+        else:
+            c = I.ctx.const("leaf", U)
+            consts.append((c, tr_ if isinstance(tr_, UVal) else UVal(I.to_u(tr_))))
+            probes.append(UVal(c, "leaf"))
+    try:
+        r = I.call(f, list(probes), {})
+    except (Unsupported, PyRaise):
+        return None
+    if not isinstance(r, Stacked):
+        return None
+
+    def rewrite(e):
+        for c, tr_ in consts:
+            if e.eq(c):
+                return tr_.t
+        if z3.is_app(e) and e.num_args() > 0:
+            for fn, st in fns:
+                if e.decl().eq(fn):
+                    return I.to_u(st.at(rewrite(e.arg(0))))
+            return e.decl()(*[rewrite(c) for c in e.children()])
+        return e
+
+    def elem(i):
+        e = r.at(i)
+        if not isinstance(e, UVal):
+            raise Unsupported("batched tree_map: non-opaque leaf result")
+        return UVal(rewrite(e.t), trees[0].cls if isinstance(trees[0], UVal) else None)
+    _used("A5: tree_map applies f leafwise; leafwise select / broadcast against a batch is the treewise one")
+    return Stacked(r.n, elem, tag="tree_map-batched")
 
 
 def _mentions(e, x):
